@@ -392,6 +392,16 @@ def rule_D(run, prog):
                                "then depends on the units current for the caller and does not map back"
                                % (fn.short, sorted({"self." + x.attr for x in outside})),
                        loc=fn.loc(outside[0]) if outside else fn.loc(), sample={"protected_reads": nprot})
+    for nme in ("get_Fourier_transform", "get_inverse_Fourier_transform"):
+        fn = prog.func("quantarhei.core.dfunction.DFunction." + nme)
+        total, bad = unitflow.typed_unprotected_reads(prog, fn)
+        if not total:
+            raise AnalysisError("DFunction.%s: the frequency-axis branch reads no axis property" % nme)
+        run.obligation(rid, fn.short, not bad, key="internal-units-step",
+                       message="%s multiplies the discrete transform by %s read outside energy_units('int'): inside a "
+                               "units context the transform is scaled by the conversion factor and no longer equals "
+                               "the Fourier sum" % (fn.short, sorted({norm(x) for x in bad})),
+                       loc=fn.loc(bad[0]) if bad else fn.loc(), sample={"typed_reads": total})
     if any(x.rule == rid and x.key == "internal-units-reads" for x in run.findings):
         return      # the symbolic round trip below assumes internal units throughout
     pi2 = Expr.const(2) * S("pi")
